@@ -136,6 +136,10 @@ func NewWorldPreset(r *core.Run, nrep int, pre *Preset) *World {
 	nT := 1 + r.Choose(3, "knob.tenants")
 	nP := 1 + r.Choose(3, "knob.providers")
 	nA := r.Choose(3, "knob.auditors")
+	if r.Property == "C08" {
+		// admission is decided over what several auditors attested: always at least one, often three
+		nA = 1 + r.Choose(3, "knob.auditors.c08")
+	}
 	idx := 0
 	add := func(role string, n int) {
 		for i := 0; i < n; i++ {
